@@ -16,6 +16,11 @@ CLAIMED = {
   "ModCache.tla models the on-disk cache one action per file-system effect with process crashes, registry faults, per-version lock and per-process single-flight; TLC checks NeverServePartial, Stable, ArtefactsAtomic, WritersHoldLock, CleanOnlyStale, OneDownloadPerProcess, MarkerDiscipline exhaustively (2 processes, <=2 crashes; thorough 2x2 threads + liveness under fairness). The code is bound by trace validation: verifhook events of real child processes killed with SIGKILL at every hook point (single, double crashes; faults), each incarnation prefix with the observed disk projection, and free-running 2 processes x 2 goroutines x 2 versions, are checked by TLC against the same actions (per-actor cursors, all invariants at every step, observed stat results / return values / disk projections compared with the model).",
   "trusted: TLC; hook placement (events after the effect); the disk projection; crash = SIGKILL (no power-loss model); canaries (dropped marker event, flipped disk marker, incomplete observation) must be rejected on every run",
   "DESIGN.md §3 C16, §3a"),
+ "C18": ("model_checking",
+  "TLA+ controller spec (Flow.tla) model-checked over every workflow of the bounded family and every completion order; every generated workflow executed on the real tools/flow under every completion order and trace-validated by TLC (FlowTrace.tla)",
+  "Flow.tla models New/runLoop (markReady, dispatch pass, collect, fold result, re-init discovering latent tasks, failure, cycle check); TLC checks StartAfterDeps, AtMostOnce, LatentDiscipline, NoDeadlock, AtExit (all run / final configuration / failure stops dependants / cycle reported), FailureStops and termination under fairness for all relations on 3 tasks and all forward DAGs on 4 (thorough also 5). Its initial states are the workflows the harness renders as CUE (direct, nested-field and computed-field references, latent tasks behind comprehension guards, one failing task) and runs on the real controller with gated runners under every completion order; each execution (state vector at every UpdateFunc callback, dependency results each runner saw, outcome, final configuration) is validated by TLC against the same actions.",
+  "trusted: TLC; the rendering of a workflow as CUE; gating of runners; per-run canaries (missing dependency result, early Ready, double start) must be rejected",
+  "DESIGN.md §3 C18"),
 }
 
 NOT_YET = "check not built yet in this round (see DESIGN.md §8 for the order of construction)"
